@@ -72,6 +72,9 @@ type badStr struct{ id int }
 
 func (b badStr) String() string { panic("String method of the panic value") }
 
+// a panic value of an uncomparable type
+type sliceVal []int
+
 type nullLogger struct{ n int32 }
 
 func (l *nullLogger) Error(args ...any) { atomic.AddInt32(&l.n, 1) }
@@ -82,6 +85,8 @@ func panicID(v any) any {
 		return x.id
 	case badStr:
 		return x.id
+	case sliceVal:
+		return x[0]
 	}
 	return v
 }
@@ -137,6 +142,8 @@ func runScenario(sc scenario, out func(map[string]interface{})) {
 					panic(err)
 				case 2:
 					panic(badStr{i})
+				case 3:
+					panic(sliceVal{i, i}) // a value of a type that cannot be compared with ==
 				}
 				panic(i)
 			}
@@ -597,7 +604,7 @@ func main() {
 	for s := 0; s < *n; s++ {
 		limits := []int{1, 2, 3, 1, 2, 4, 0, -1, -5}
 		sc := scenario{Limit: limits[rng.Intn(len(limits))], Jitter: rng.Int63(), Handler: true,
-			HMode: []int{0, 0, 0, 1, 2, 3}[rng.Intn(6)], PKind: []int{0, 0, 1, 2}[rng.Intn(4)],
+			HMode: []int{0, 0, 0, 1, 2, 3}[rng.Intn(6)], PKind: []int{0, 0, 1, 2, 3, 3}[rng.Intn(6)],
 			Depth: []int{0, 1, 3, 31, 32, 33, 64, 1000}[rng.Intn(8)]}
 		k := 1 + rng.Intn(7)
 		for i := 0; i < k; i++ {
